@@ -363,8 +363,13 @@ Fixpoint uniq_app (acc l : list nat) : list nat :=
   match l with [] => acc | k :: r => if memb k acc then uniq_app acc r else uniq_app (acc ++ [k]) r end.
 Fixpoint active_sinks (s : st) (n : nat) (i : nat) (acc : list nat) : list nat :=
   match n with O => acc | S n' => active_sinks s n' (S i) (uniq_app acc (lsinks (lg s i))) end.
+(* a sink whose flush_sink() throws (driver: marker 4095 in its throw plan): the exception is caught per sink and
+   reported, the other sinks are flushed all the same *)
+Definition FLUSH_THROWS : nat := 4095.
+Definition flush_throws (s : st) (k : nat) : bool := memb FLUSH_THROWS (sthrow (sk s k)).
+Definition flush_tokens (s : st) (k : nat) : list N := if flush_throws s k then [O_NOTE; 5; 0] else [O_FLUSH; N.of_nat k].
 Definition flush_sinks (s : st) : st :=
-  add_obs s (flat_map (fun k => [O_FLUSH; N.of_nat k]) (active_sinks s (nloggers s) 0 [])).
+  add_obs s (flat_map (flush_tokens s) (active_sinks s (nloggers s) 0 [])).
 Definition set_lastfl s v := {| clock := clock s; th := th s; registered := registered s; newflag := newflag s;
   invalid_cnt := invalid_cnt s; cache := cache s; pc := pc s; tsnow := tsnow s; lg := lg s; sk := sk s;
   nsinks := nsinks s; nloggers := nloggers s; lastfl := v; flags := flags s; obs := obs s;
